@@ -101,21 +101,12 @@ def _opcode_guard_of_function(A, g):
             diff_label = False
         else:
             continue
-        # success returns reachable when the 'different' edge is removed only
-        reach = reachable_without_edges(cfg, cfg.entry, set())
-        reach_wo = reachable_without_edges(cfg, cfg.entry, {(n.id, not diff_label)})
-        # nodes reachable only through the 'different' edge must not contain a
-        # success return
-        bad = False
-        for r in cfg.return_nodes():
-            if r.id in reach_wo and A.ret_class(g, r)[0] != 'fail':
-                # reachable while taking only the 'different' branch at n?
-                # reach_wo removed the 'same' edge: anything still reachable
-                # after n goes through 'different'
-                after = reachable_without_edges(
-                    cfg, n, {(n.id, not diff_label)})
-                if r.id in after:
-                    bad = True
+        # g requires op-code K when no successful return is reachable once
+        # the 'same' edge of this test is removed
+        reach_wo = reachable_without_edges(cfg, cfg.entry,
+                                           {(n.id, not diff_label)})
+        bad = any(r.id in reach_wo and A.ret_class(g, r)[0] != 'fail'
+                  for r in cfg.return_nodes())
         if not bad:
             return v.member
     return None
